@@ -17,7 +17,8 @@ Emits Gen/CApi.lean:
   * iterFields / iterSites — the stored iterators of the context and every function that touches each;
   * heapGetters       — functions that register a heap result in OWNED, with the kind; every `into_raw` inside an
                         exported function must be wrapped in `owned_into_raw` (else ExtractError);
-  * ownedKinds        — variants of `enum Owned`; freeShape — recognised shape of chewing_free's rebuild arms;
+  * ownedKinds        — variants of `enum Owned`; freeShape / freeRemoves — recognised shapes of chewing_free's
+                        rebuild arms and of its registry lookup (remove vs get);
   * unsafeBlocksTotal, helperUnsafeFns — all `unsafe {` blocks of io.rs and the non-exported `unsafe fn`s;
   * kbNames           — `impl Display for KeyboardLayoutCompat` texts as UTF-8 bytes; maxPinyinLen.
 """
@@ -49,10 +50,6 @@ COPY_FIXED = ("letmutn=min(buf.len().saturating_sub(1),buffer.len());while!buffe
 COPY_OLD = ("letn=min(buf.len(),buffer.len());buf.fill(0);buf[..n].copy_from_slice(&buffer.as_bytes()[..n]);"
             "buf.as_ptr().cast()")
 
-FREE_ARMS_FIXED = ("Owned::CString=>drop(unsafe{CString::from_raw(ptr.cast())}),"
-                   "Owned::CUShortSlice(len)=>{drop(unsafe{Vec::from_raw_parts(ptr.cast::<c_ushort>(),*len,*len)})}")
-FREE_ARMS_OLD = ("Owned::CString=>drop(unsafe{CString::from_raw(ptr.cast())}),"
-                 "Owned::CUShortSlice(len)=>{drop(unsafe{Vec::from_raw_parts(ptr,*len,*len)})}")
 
 
 def ws(s):
@@ -127,14 +124,18 @@ def capi():
     if kinds != ["CString", "CUShortSlice"]:
         raise ExtractError(f"enum Owned changed: {kinds}")
     free_body = ws(fn_body(io, "chewing_free"))
-    if FREE_ARMS_FIXED in free_body:
-        free_shape = 1
-    elif FREE_ARMS_OLD in free_body:
-        free_shape = 0
+    if "Owned::CString=>drop(unsafe{CString::from_raw(ptr.cast())})," not in free_body:
+        raise ExtractError("chewing_free: unrecognised CString arm: " + free_body)
+    m = re.search(r"Owned::CUShortSlice\(len\)=>\{drop\(unsafe\{Vec::from_raw_parts\((ptr(?:\.cast::<c_ushort>\(\))?),\*?len,\*?len\)\}\)\}", free_body)
+    if not m:
+        raise ExtractError("chewing_free: unrecognised u16-slice arm: " + free_body)
+    free_shape = 1 if m.group(1) != "ptr" else 0
+    if "ifletSome(owned)=map.remove(&(ptrasusize))" in free_body:
+        free_removes = 1
+    elif "ifletSome(owned)=map.get(&(ptrasusize))" in free_body:
+        free_removes = 0
     else:
-        raise ExtractError("chewing_free has unrecognised rebuild arms: " + free_body)
-    if "map.get(&(ptrasusize))" not in free_body:
-        raise ExtractError("chewing_free no longer looks the pointer up with map.get (model: entries are never removed)")
+        raise ExtractError("chewing_free: unrecognised registry lookup: " + free_body)
     if ws(fn_body(io, "owned_into_raw")).count("map.insert(ptrasusize,owned)") != 1:
         raise ExtractError("owned_into_raw no longer inserts (ptr as usize, owned)")
     if len(re.findall(r"\bOWNED\b", io)) != 3:
@@ -231,6 +232,8 @@ def capi():
     t += f"def copyCstrShape : Nat := {copy_shape}\n\n"
     t += "/-- recognised rebuild arms of `chewing_free`: 1 = `Vec<c_ushort>`, 0 = `Vec<c_void>` (layout mismatch) -/\n"
     t += f"def freeShape : Nat := {free_shape}\n\n"
+    t += "/-- 1 = `chewing_free` removes the registry entry it releases (`map.remove`), 0 = it only looks it up (`map.get`) -/\n"
+    t += f"def freeRemoves : Nat := {free_removes}\n\n"
     t += "def ownedKinds : List String := " + lean_list([lean_str(k) for k in kinds]) + "\n\n"
     t += "/-- 1 = `userphrase_iter` is `Peekable<Entries<'static>>` (borrows the user dictionary) -/\n"
     t += f"def userphraseIterBorrows : Nat := {uiter_borrows}\n\n"
